@@ -62,6 +62,13 @@ theorem evalArgs_ren (ρ : Ren) (hρ : RenInj ρ) (p : Prog) (σ : St) (es : Lis
     | none => simp
     | some v => cases evalArgs p σ es <;> simp
 
+theorem evalIsPtr_ren (ρ : Ren) (hρ : RenInj ρ) (p : Prog) (σ : St) (e : Expr) :
+    evalIsPtr (renProg ρ p) (renSt ρ σ) (renE ρ e) = evalIsPtr p σ e := by
+  simp only [evalIsPtr, evalE_ren ρ hρ]
+  cases h : evalE p σ e with
+  | none => simp
+  | some v => cases v <;> simp [renVal]
+
 theorem heap_ren (ρ : Ren) (σ : St) (a : Nat) :
     (renSt ρ σ).heap[a]? = (σ.heap[a]?).map (·.map (renVal ρ)) := by
   simp [renSt]
@@ -266,6 +273,41 @@ theorem exec_ren (ρ : Ren) (hρ : RenInj ρ) (p : Prog) (fuel : Nat) (s : Stmt)
   | case36 fuel e σ v h =>
     simp only [renS, exec, evalE_ren ρ hρ, h]
     simp [renRes, renOutcome]
+  | case37 fuel x e σ h =>
+    simp [renS, exec, evalInt_ren ρ hρ, h]
+  | case38 fuel x e σ n h =>
+    simp only [renS, exec, evalInt_ren ρ hρ, h]
+    simp [renRes, renOutcome, renSt, renEnv, renVal]
+  | case39 fuel x e σ h =>
+    simp [renS, exec, evalIsPtr_ren ρ hρ, h]
+  | case40 fuel x e σ n h =>
+    simp only [renS, exec, evalIsPtr_ren ρ hρ, h]
+    simp [renRes, renOutcome, renSt, renEnv, renVal]
+  | case41 fuel x e σ h =>
+    simp [renS, exec, evalE_ren ρ hρ, h]
+  | case42 fuel x e σ v h =>
+    simp only [renS, exec, evalE_ren ρ hρ, h]
+    simp [renRes, renOutcome, renSt, renEnv]
+  | case43 fuel x σ =>
+    simp [renS, exec, renRes, renOutcome]
+  | case44 fuel x e σ h =>
+    simp [renS, exec, evalE_ren ρ hρ, h]
+  | case45 fuel x e σ v h =>
+    simp only [renS, exec, evalE_ren ρ hρ, h]
+    simp [renRes, renOutcome, renSt, renEnv]
+  | case46 fuel c invert body σ h =>
+    simp [renS, exec, evalInt_ren ρ hρ, h]
+  | case47 fuel c invert body σ n hn hc ih =>
+    simp only [renS, exec, evalInt_ren ρ hρ, hn, hc, ↓reduceIte]
+    exact ih
+  | case48 fuel c invert body σ n hn hc =>
+    simp only [renS, exec, evalInt_ren ρ hρ, hn, hc]
+    simp [renRes, renOutcome]
+  | case49 fuel x f ctx σ h =>
+    simp [renS, exec, evalE_ren ρ hρ, h]
+  | case50 fuel x f ctx σ v h =>
+    simp only [renS, exec, evalE_ren ρ hρ, h]
+    simp [renRes, renOutcome, renSt, renEnv, renVal]
 
 /-- **mir_rename_invariant_full**: for every injective renaming of function names, string-global
 names and variable / temporary names, every program, entry point and fuel: the renamed program
@@ -313,5 +355,25 @@ example : run (renProg demoRen demo) 8 20 = some [.int 7, .int 3] := by
       fun a b h => by simpa [demoRen] using h, fun a b h => by simpa [demoRen] using h⟩]
   simp [run, demo, lookup, exec, evalE, evalInt, evalPrinted, evalArgs, resolveCallee, bindParams, binop,
     pickFinals, names, inits, loopVals]
+
+/-- non-vacuity for the remaining statement kinds: `ClosureInit`, closure call, `Cast`, `IsPointer`,
+`Not`, `LateInitDeclaration`, `SingleIf` (inverted) with a `LateInitAssignment`. Prints 7, 1, 9. -/
+def demo2 : Prog :=
+  { funs := [
+      (0, ⟨[], .seq (.closureInit 1 1 (.lit 5))
+            (.seq (.call 2 (.closure (.var 1)) [.lit 2])
+            (.seq (.print (.var 2))
+            (.seq (.cast 3 (.var 1))
+            (.seq (.isPointer 4 (.var 3))
+            (.seq (.print (.var 4))
+            (.seq (.not 5 (.var 4))
+            (.seq (.lateDecl 6)
+            (.seq (.singleIf (.var 5) true (.lateAssign 6 (.lit 9)))
+                  (.print (.var 6)))))))))), .lit 0⟩),
+      (1, ⟨[10, 11], .bin 12 .add (.var 10) (.var 11), .var 12⟩)],
+    globs := [] }
+
+example : run demo2 4 0 = some [.int 7, .int 1, .int 9] := by
+  simp [run, demo2, lookup, exec, evalE, evalInt, evalIsPtr, evalPrinted, evalArgs, resolveCallee, bindParams, binop]
 
 end SamVerif.MirFull
